@@ -253,6 +253,7 @@ func RunPathOn(cfg Cfg, prop string, fsys *vfs.FS, ent *GoldenEntry, f func(w *W
 	x := vrt.Run(vrt.Config{Sequential: true, MaxTicks: 1000}, func() {
 		w = &World{Cfg: cfg, FS: fsys, Root: dbRoot, M: NewModel(), Ever: map[string]bool{}, Dead: map[string]bool{}, prop: prop}
 		w.M.UniqueP = cfg.Index == 3
+		w.M.UniqueV = cfg.UniqueV()
 		for u, j := range ent.Model {
 			r := &Rec{}
 			if err := json.Unmarshal([]byte(j), r); err != nil {
